@@ -178,6 +178,7 @@ def stage_cargo(spec, log):
     lock_dst = os.path.join(HARNESS, "Cargo.lock")
     if not os.path.exists(lock_dst):
         shutil.copy(lock_src, lock_dst)
+    sh([sys.executable, os.path.join(ROOT, "tools", "mkworkspace.py")], cwd=ROOT)
     cmd = ["cargo", "build", "--release", "--offline", "-p", spec["harness"]]
     rc, out, dt = sh(cmd, cwd=HARNESS, timeout=spec.get("cargo_timeout", 3000))
     if rc != 0 and "Cargo.lock" in out and ("needs to be updated" in out or "failed to select" in out):
